@@ -802,7 +802,7 @@ impl System for VerifSystem
 
     fn open(&self, path: &str) -> Result<Self::File, SystemError>
     {
-        sched::yield_here();
+        sched::yield_tagged("open", path);
         let mut g = self.lock();
         match g.file_inode(path)
         {
@@ -822,13 +822,13 @@ impl System for VerifSystem
 
     fn create_file(&mut self, path: &str) -> Result<Self::File, SystemError>
     {
-        sched::yield_here();
+        sched::yield_tagged("create", path);
         self.create_inner(path)
     }
 
     fn create_dir(&mut self, path: &str) -> Result<(), SystemError>
     {
-        sched::yield_here();
+        sched::yield_tagged("mkdir", path);
         let g = self.lock();
         let op = Op::Mkdir(path.to_string());
         let c = comps(path);
@@ -859,7 +859,7 @@ impl System for VerifSystem
 
     fn is_dir(&self, path: &str) -> bool
     {
-        sched::yield_here();
+        sched::yield_tagged("is_dir", path);
         let mut g = self.lock();
         let r = g.is_dir(path);
         g.log(Op::IsDir(path.to_string()), r);
@@ -868,7 +868,7 @@ impl System for VerifSystem
 
     fn is_file(&self, path: &str) -> bool
     {
-        sched::yield_here();
+        sched::yield_tagged("is_file", path);
         let mut g = self.lock();
         let r = g.file_inode(path).is_some();
         g.log(Op::IsFile(path.to_string()), r);
@@ -877,7 +877,7 @@ impl System for VerifSystem
 
     fn list_dir(&self, path: &str) -> Result<Vec<String>, SystemError>
     {
-        sched::yield_here();
+        sched::yield_tagged("list", path);
         let mut g = self.lock();
         let res =
         {
@@ -900,7 +900,7 @@ impl System for VerifSystem
 
     fn rename(&mut self, from: &str, to: &str) -> Result<(), SystemError>
     {
-        sched::yield_here();
+        sched::yield_tagged("rename", &format!("{}>{}", from, to));
         let g = self.lock();
         let op = Op::Rename(from.to_string(), to.to_string());
         {
@@ -980,7 +980,7 @@ impl System for VerifSystem
 
     fn get_modified(&self, path: &str) -> Result<SystemTime, SystemError>
     {
-        sched::yield_here();
+        sched::yield_tagged("mtime", path);
         let mut g = self.lock();
         let r = match g.file_inode(path)
         {
@@ -993,7 +993,7 @@ impl System for VerifSystem
 
     fn is_executable(&self, path: &str) -> Result<bool, SystemError>
     {
-        sched::yield_here();
+        sched::yield_tagged("is_exec", path);
         let mut g = self.lock();
         let r = match g.file_inode(path)
         {
@@ -1006,7 +1006,7 @@ impl System for VerifSystem
 
     fn set_is_executable(&mut self, path: &str, executable: bool) -> Result<(), SystemError>
     {
-        sched::yield_here();
+        sched::yield_tagged("chmod", path);
         self.chmod_inner(path, executable)
     }
 
